@@ -12,11 +12,12 @@ import (
 // "first key >= point is the End of the only entry that can contain point"; sortedness and
 // pairwise disjointness of Entries() are statements about those keys. Two structural clauses are
 // necessary for that:
-//   key-is-end      every Set(k, e) on a map of *Entry stores the entry under its own End: either
-//                   Set(e.End, e) for the same variable e, or Set(k, &Entry{…, End: k, …});
-//   end-immutable   the End of an entry is never assigned after construction (an entry already in
-//                   the tree would otherwise sit under a stale key); splitting shortens entries by
-//                   moving Start and creates new entries for the cut-off part.
+//
+//	key-is-end      every Set(k, e) on a map of *Entry stores the entry under its own End: either
+//	                Set(e.End, e) for the same variable e, or Set(k, &Entry{…, End: k, …});
+//	end-immutable   the End of an entry is never assigned after construction (an entry already in
+//	                the tree would otherwise sit under a stale key); splitting shortens entries by
+//	                moving Start and creates new entries for the cut-off part.
 func rikIntervalKeys(w *World) {
 	w.rule("RIK")
 	p := w.pkg("internal/interval")
